@@ -11,11 +11,15 @@
 //   born <id> <typeidx> <V at construction>                      (cell constructed: target volume == V, pressure 0)
 //   init <id> <typeidx> <V> <Vt> <p> <g> <Vdiv> <ready>          (after solver::solver)
 //   iter <n> <dt> <counter-lower-bound> pre <ids ...>
-//   mid <id> <typeidx> <subject> <V> <Vt> <p> <g> <Vdiv>         (recorded right after the cell's own apply_internal_forces,
-//                                                                 in the order of the solver's loop = list order, 1 thread)
+//   mid <id> <typeidx> <subject> <V- Vt- p-> <V> <Vt> <p> <g> <Vdiv>   (getters read right before (V- Vt- p-) and right after the
+//                                                                 cell's own apply_internal_forces, in the order of the solver's
+//                                                                 loop = list order, 1 thread)
 //   post <ids ...>
 //   state <id> <typeidx> <V> <Vt> <p> <g> <Vdiv> <ready>         (getters after run_iteration, survivors)
-//   gone <id> <V> <Vt> <nnodes>                                  (cells of `pre`/`mid` that are no longer listed; after clear_data)
+//   gone <id> <V> <Vt> <nnodes>                                  (cells of `pre` that are no longer listed; after clear_data)
+//   halt stale-local-ids                                         (a removal left cell_lst_[i]->get_local_id() != i: the next
+//                                                                 iteration would dereference through stale ids (C08 finding),
+//                                                                 the scenario stops here)
 //   end | error <text>
 // Observation only: the probe subclasses call the unmodified base-class apply_internal_forces and then
 // read the public getters; nothing of the solver is replaced.
@@ -33,16 +37,17 @@
 
 using vproto::to_hex; using vproto::from_hex;
 
-struct midrec { unsigned id; const cell_type_parameters* ty; bool subject; double V, Vt, p, g, vdiv; };
+struct midrec { unsigned id; const cell_type_parameters* ty; bool subject; double V0, Vt0, p0, V, Vt, p, g, vdiv; };
 static std::vector<midrec> g_mid;
 
 template<class B, bool SUBJECT>
 struct probe : B {
     using B::B;
     void apply_internal_forces(const double dt) noexcept override {
+        const double V0 = this->get_volume(), Vt0 = this->get_target_volume(), p0 = this->get_pressure();
         B::apply_internal_forces(dt);
         #pragma omp critical(c04probe)
-        g_mid.push_back({this->get_id(), this->get_cell_type().get(), SUBJECT, this->get_volume(), this->get_target_volume(),
+        g_mid.push_back({this->get_id(), this->get_cell_type().get(), SUBJECT, V0, Vt0, p0, this->get_volume(), this->get_target_volume(),
                          this->get_pressure(), this->get_growth_rate(), this->get_division_volume()});
     }
     cell_ptr get_cell_same_type(const mesh& m) noexcept(false) override {
@@ -167,13 +172,17 @@ static void run(const std::vector<std::string>& w){
         for(auto& c: sv.get_cell_lst()){ now.insert(c->get_id()); if(c->get_id() >= counter) counter = c->get_id() + 1; }
         for(const midrec& r: g_mid){
             if(r.id >= counter) counter = r.id + 1;
-            std::cout << "mid " << r.id << ' ' << tidx[r.ty] << ' ' << (r.subject ? 1 : 0) << ' ' << to_hex(r.V) << ' ' << to_hex(r.Vt) << ' '
+            std::cout << "mid " << r.id << ' ' << tidx[r.ty] << ' ' << (r.subject ? 1 : 0) << ' ' << to_hex(r.V0) << ' ' << to_hex(r.Vt0) << ' ' << to_hex(r.p0)
+                      << ' ' << to_hex(r.V) << ' ' << to_hex(r.Vt) << ' '
                       << to_hex(r.p) << ' ' << to_hex(r.g) << ' ' << to_hex(r.vdiv) << '\n';
         }
         std::cout << "post" << ids_of(sv.get_cell_lst()) << '\n';
         for(auto& c: sv.get_cell_lst()) dump("state", c);
         for(auto& c: pre) if(!now.count(c->get_id()))
             std::cout << "gone " << c->get_id() << ' ' << to_hex(c->get_volume()) << ' ' << to_hex(c->get_target_volume()) << ' ' << c->get_node_lst().size() << '\n';
+        bool stale = false;
+        for(size_t i = 0; i < sv.get_cell_lst().size(); i++) if(sv.get_cell_lst()[i]->get_local_id() != i) stale = true;
+        if(stale){ std::cout << "halt stale-local-ids\n"; break; }
     }
     std::cout << "end\n";
     std::error_code ec; std::filesystem::remove_all(sp.output_folder_path_, ec);
